@@ -116,6 +116,11 @@ def prop(case):
                 got = cap(x)
             dscale = max(np.abs(r["vector"]).max() if r["vector"].size else 0.0, 1.0)
             ordered_all &= compare_vectors(got, r["vector"], dscale, "objective")
+        # "for every scheme": also when the same scheme object is used again (a second optimizer on the caller's scheme)
+        with expect_ok("objective.second_use_setup"):
+            cap_again = capture.open_objective(scheme)
+            got = cap_again(cap_again.x0)
+        compare_vectors(got, refs[0]["vector"], max(np.abs(refs[0]["vector"]).max() if refs[0]["vector"].size else 0.0, 1.0), "objective.second_use_of_scheme")
     f = features(case)
     tags = list(f) + (["entrywise_order_matches"] if ordered_all else ["entrywise_order_differs"])
     return {"nontrivial": len([x for x in f if x not in ("two_groups", "nnls")]) >= 2, "tags": tags}
